@@ -17,7 +17,7 @@ import (
 
 func init() {
 	register(&Prop{
-		ID: "C12", Level: "exploration", Quick: 2600, Thorough: 60000,
+		ID: "C12", Level: "exploration", Quick: 26000, Thorough: 520000,
 		Rule: "trial = (command form, generated valid input) executed under the baseline schedule and 8 (quick) / 24 (thorough) perturbed configurations (scheduling strategy x --threads x NumCPU x map iteration order x read chunking); non-trivial = at least one perturbed run reached a different full operation trace than the baseline AND (a record arrived out of input order at some stage, or a select had several ready cases, or a map order was permuted); distinct = distinct (input, options)",
 		Gen:   genC12,
 		Check: checkC12,
